@@ -356,6 +356,8 @@ def lits_of(k, pol=True):
 
 def ifexp(c, a, b):
     """Conditional value with the test in positive polarity."""
+    if a == b:
+        return a
     if c[0] == 'const' and isinstance(c[1], bool):
         return a if c[1] else b
     if c[0] == 'not':
@@ -471,6 +473,20 @@ def _num(k, v):
 
 
 def b_cmp(op, a, b):
+    if op in ('==', '!=') and a[0] == 'const' and b[0] == 'const' \
+            and isinstance(a[1], (str, type(None))) \
+            and isinstance(b[1], (str, type(None))):
+        # two literals (a helper's parameter bound to the text its caller
+        # passes, compared with the keys of a table)
+        same = a[1] == b[1]
+        return ('const', same if op == '==' else not same)
+    if a[0] == 'num' and b[0] == 'num':
+        import operator as _op
+        return ('const', {'==': _op.eq, '!=': _op.ne, '<': _op.lt,
+                          '<=': _op.le, '>': _op.gt, '>=': _op.ge,
+                          'is': _op.eq, 'is not': _op.ne}[op](a[1], b[1])) \
+            if op in ('==', '!=', '<', '<=', '>', '>=') else \
+            ('cmp', op, a, b)
     # emptiness tests: len(x) > 0, len(x) != 0, len(x) >= 1  ==  bool(x)
     la, lb = _len_arg(a), _len_arg(b)
     if la is not None and lb is None:
@@ -778,6 +794,9 @@ class Evaluator(object):
             a = alias(n)
             if a is not None:
                 return self.ev(a, st)
+            lam = self._helper_as_lambda(n)
+            if lam is not None:
+                return self.ev(lam, st)
         return ('name', n.id)
 
     def ev_Attribute(self, n, st):
@@ -787,6 +806,12 @@ class Evaluator(object):
             if d is not None:
                 return self.ev(d, st)
         base = self.k(n.value, st)
+        if base[0] == 'call' and not base[2] and not base[3] \
+                and n.attr.isupper() and base[1][0] == 'attr' \
+                and base[1][2][:1].isupper():
+            # Class().CONSTANT is Class.CONSTANT (a named constant read
+            # through a throw-away instance, e.g. Chem.BondType().DOUBLE)
+            base = base[1]
         hk = (base, n.attr)
         if hk in st.heap:
             return st.heap[hk]
@@ -878,6 +903,14 @@ class Evaluator(object):
         if op in ('+', '*') and (stringy(ka) or stringy(kb)):
             if op == '+':
                 return strcat(ka, kb)
+            for one, times in ((ka, kb), (kb, ka)):
+                if one[0] == 'list' and len(one[1]) == 1 \
+                        and times[0] not in ('list', 'tuple', 'const',
+                                             'strcat'):
+                    # [x] * n  ==  [x for _ in range(n)]
+                    return ('comp', 'list', one[1][0], ((
+                        ('bv', self.depth),
+                        ('call', ('name', 'range'), (times,), ()), ()),))
             return ('seqrep', ka, kb)
         if op == '+':
             return to_poly(a) + to_poly(b)
@@ -905,8 +938,18 @@ class Evaluator(object):
     def ev_Compare(self, n, st):
         left = self.k(n.left, st)
         parts = []
+        lnode = n.left
         for op, right in zip(n.ops, n.comparators):
             r = self.k(right, st)
+            if isinstance(op, (ast.Is, ast.IsNot)) and hasattr(
+                    self, '_sentinel_fact'):
+                fact = self._sentinel_fact(lnode, left, right, r)
+                if fact is not None:
+                    parts.append(('const', fact if isinstance(op, ast.Is)
+                                  else not fact))
+                    left, lnode = r, right
+                    continue
+            lnode = right
             if isinstance(op, (ast.In, ast.NotIn)) and r[0] == 'list':
                 r = ('tuple', r[1])     # membership in a literal
             if isinstance(op, (ast.In, ast.NotIn)) and isinstance(
@@ -920,8 +963,15 @@ class Evaluator(object):
                     members = tb.keys
                 elif tb is not None:
                     members = tb.elts
-                if members and all(isinstance(m, ast.Constant)
-                                   for m in members):
+                if members and (isinstance(tb, ast.Dict) or not all(
+                        isinstance(m, ast.Constant) for m in members)) \
+                        and not all(isinstance(m, ast.Constant)
+                                    for m in members):
+                    members = None
+                    if not isinstance(tb, ast.Dict):
+                        # named constants: the literal tuple itself
+                        r = ('tuple', tuple(self.k(m, st) for m in tb.elts))
+                if members:
                     r = ('tuple', tuple(self.k(m, st) for m in members))
             parts.append(b_cmp(_CMPOPS[type(op)], left, r))
             left = r
@@ -1116,6 +1166,22 @@ class Evaluator(object):
             if v is not None:
                 return v
         fk = self.k(n.func, st)
+        if fk[0] == 'lambda' and not n.keywords and len(n.args) == fk[1] \
+                and not any(isinstance(a, ast.Starred) for a in n.args):
+            # (lambda a, b: body)(x, y)  ==  body[a:=x, b:=y]
+            actual = dict(((('bv', 'lam', i)), self.k(a, st))
+                          for i, a in enumerate(n.args))
+
+            def sub(k):
+                if k in actual:
+                    return actual[k]
+                if isinstance(k, tuple):
+                    if k[:1] == ('lambda',):
+                        return k        # an inner lambda binds its own
+                    return tuple(sub(x) if isinstance(x, tuple) else x
+                                 for x in k)
+                return k
+            return poly_of_key(sub(fk[2]))
         cname = self._call_name(fk)
         # builtins with algebraic meaning
         if cname == 'sum' and len(n.args) == 1 and not n.keywords \
@@ -1143,6 +1209,13 @@ class Evaluator(object):
                     'list', 'tuple') and len(xs[2]) == 1 and not xs[3]:
                 xs = xs[2][0]
             rep = self.k(n.args[2], st)
+            if rep[0] == 'comp' and rep[1] == 'list' and len(rep[3]) == 1 \
+                    and not rep[3][0][2] and rep[3][0][1] == (
+                        'call', ('name', 'range'),
+                        (('call', ('name', 'len'), (xs,), ()),), ()):
+                base = ('bv', self.depth)
+                elt = self._apply_binary(f, base, rep[2])
+                return ('comp', 'gen', elt, ((base, xs, ()),))
             if rep[0] == 'seqrep':
                 a, b = rep[1], rep[2]
                 if b[0] in ('list', 'tuple'):
@@ -1527,6 +1600,24 @@ def has_handler(path):
 MAX_PATHS = 4096
 
 
+# second-chance mode of the comparisons: calls to reviewed functions of the
+# same module/class are followed too (a body replaced by a call to an existing
+# function that does the same, or the reverse).  `self.m()` is followed only
+# when the package defines `m` in exactly one class (no override can be meant).
+_INLINE_ALL = [False]
+METHOD_DEF_COUNT = {}
+
+
+class inline_all(object):
+    def __enter__(self):
+        self.saved = _INLINE_ALL[0]
+        _INLINE_ALL[0] = True
+
+    def __exit__(self, *exc):
+        _INLINE_ALL[0] = self.saved
+        return False
+
+
 def _is_new_function(rel, qualname):
     """A function that has no reviewed counterpart: a helper introduced
     after the review.  Calls to it are followed (summarised in place) so the
@@ -1679,6 +1770,7 @@ class Summarizer(Evaluator):
         self.loaded_names = set(x.id for x in ast.walk(func)
                                 if isinstance(x, ast.Name)
                                 and isinstance(x.ctx, ast.Load))
+        self.func_node = func
         if self.ctx is None:
             self.ctx = context_of(func)
         self.inline_stack = [getattr(getattr(func, '_ctx_from', func),
@@ -2112,6 +2204,102 @@ class Summarizer(Evaluator):
         self._tables[ck] = res
         return res
 
+    def _helper_as_lambda(self, node):
+        """A module-level helper without a reviewed counterpart whose body
+        is one `return <expr>`, used as a value (key=_first_item): the
+        lambda with that body."""
+        if self.ctx is None or not getattr(self, 'inline', False) \
+                or node.id in getattr(self, 'locals_', ()) \
+                or node.id in getattr(self, 'params_', ()):
+            return None
+        rel, mod, cls = self.ctx
+        for stmt in mod.body:
+            if isinstance(stmt, ast.FunctionDef) and stmt.name == node.id:
+                body = [b for b in stmt.body if not (
+                    isinstance(b, ast.Expr) and isinstance(
+                        b.value, ast.Constant))]
+                a = stmt.args
+                if len(body) == 1 and isinstance(body[0], ast.Return) \
+                        and body[0].value is not None \
+                        and not stmt.decorator_list and not (
+                            a.vararg or a.kwarg or a.kwonlyargs or a.defaults
+                            or getattr(a, 'posonlyargs', [])) \
+                        and _is_new_function(rel, stmt.name):
+                    lam = ast.Lambda(args=a, body=body[0].value)
+                    ast.copy_location(lam, node)
+                    ast.fix_missing_locations(lam)
+                    return lam
+        return None
+
+    def _sentinels(self):
+        """Private module-level sentinels: `_X = object()` bound once, used
+        only as `return _X` and as an operand of `is` / `is not`.  Maps the
+        name to the names of the module's functions that return it."""
+        rel, mod, cls = self.ctx
+        ck = (id(mod), 'sentinels')
+        if ck in self._tables:
+            return self._tables[ck]
+        out = {}
+        for stmt in mod.body:
+            if isinstance(stmt, ast.Assign) and len(stmt.targets) == 1 \
+                    and isinstance(stmt.targets[0], ast.Name) \
+                    and stmt.targets[0].id.startswith('_') \
+                    and isinstance(stmt.value, ast.Call) and isinstance(
+                        stmt.value.func, ast.Name) \
+                    and stmt.value.func.id == 'object' \
+                    and not stmt.value.args and not stmt.value.keywords:
+                out[stmt.targets[0].id] = stmt.targets[0]
+        res = {}
+        for name, bind in out.items():
+            ok, returners = True, set()
+            for f in ast.walk(mod):
+                if isinstance(f, ast.FunctionDef):
+                    for x in ast.walk(f):
+                        if isinstance(x, ast.Return) and isinstance(
+                                x.value, ast.Name) and x.value.id == name:
+                            returners.add(f.name)
+            for x in ast.walk(mod):
+                if isinstance(x, ast.Name) and x.id == name and x is not bind:
+                    par = getattr(x, '_parent', None)
+                    if isinstance(par, ast.Return) and par.value is x:
+                        continue
+                    if isinstance(par, ast.Compare) and all(isinstance(
+                            o, (ast.Is, ast.IsNot)) for o in par.ops):
+                        continue
+                    ok = False
+                    break
+            if ok:
+                res[name] = returners
+        self._tables[ck] = res
+        return res
+
+    def _sentinel_fact(self, lnode, lk, rnode, rk):
+        """`e is _X` for a private sentinel: True when e is that name,
+        False when e is the result of a call that cannot hand it out (not a
+        function of this module that returns it), a literal or None."""
+        if self.ctx is None:
+            return None
+        for sn, sk, on, ok_ in ((lnode, lk, rnode, rk),
+                                (rnode, rk, lnode, lk)):
+            if isinstance(sn, ast.Name) and sk == ('name', sn.id) \
+                    and sn.id not in getattr(self, 'locals_', ()) \
+                    and sn.id not in getattr(self, 'params_', ()):
+                sent = self._sentinels()
+                if sn.id not in sent:
+                    continue
+                if ok_ == sk:
+                    return True
+                if ok_[0] in ('const', 'num', 'tuple', 'list', 'comp',
+                              'strcat', 'fmt'):
+                    return False
+                if ok_[0] == 'call':
+                    fk = ok_[1]
+                    callee = fk[1] if fk[0] == 'name' else (
+                        fk[2] if fk[0] == 'attr' else None)
+                    if callee is not None and callee not in sent[sn.id]:
+                        return False
+        return None
+
     def _module_alias(self, node):
         """The attribute chain a private module-level name (`_X = a.b.c`,
         bound once, never re-bound) stands for."""
@@ -2217,7 +2405,15 @@ class Summarizer(Evaluator):
             if isinstance(x, (ast.YieldFrom, ast.Await)):
                 return None
         if not _is_new_function(rel, qual):
-            return None
+            if not _INLINE_ALL[0]:
+                return None
+            if kind == 'method' and isinstance(f, ast.Attribute) \
+                    and isinstance(f.value, ast.Name) \
+                    and f.value.id == 'self' \
+                    and METHOD_DEF_COUNT.get(target.name, 2) != 1:
+                return None
+            if len(target.body) > 25:
+                return None
         return target, qual, kind
 
     def _bind_args(self, call, target, kind, st):
@@ -2436,8 +2632,37 @@ class Summarizer(Evaluator):
 
     def st_ImportFrom(self, n, st):
         for a in n.names:
-            st.env[a.asname or a.name] = ('importfrom', '.' * n.level
-                                          + (n.module or ''), a.name)
+            local = a.asname or a.name
+            val = ('importfrom', '.' * n.level + (n.module or ''), a.name)
+            if self.ctx is not None:
+                # the same import at module level (or no module-level
+                # binding of that name at all): the plain global name
+                mod = self.ctx[1]
+                same, other = False, False
+                for stmt in mod.body:
+                    if isinstance(stmt, ast.ImportFrom):
+                        for b in stmt.names:
+                            if (b.asname or b.name) == local:
+                                if stmt.module == n.module and stmt.level \
+                                        == n.level and b.name == a.name:
+                                    same = True
+                                else:
+                                    other = True
+                    else:
+                        for x in ast.walk(stmt) if isinstance(
+                                stmt, (ast.Assign, ast.Import)) else ():
+                            if isinstance(x, ast.Name) and x.id == local \
+                                    and isinstance(x.ctx, ast.Store):
+                                other = True
+                            if isinstance(x, ast.alias) and (
+                                    x.asname or x.name) == local:
+                                other = True
+                        if isinstance(stmt, (ast.FunctionDef, ast.ClassDef)) \
+                                and stmt.name == local:
+                            other = True
+                if not other:
+                    val = ('name', local)
+            st.env[local] = val
         return [(st, None)]
 
     def st_FunctionDef(self, n, st):
@@ -2715,6 +2940,24 @@ class Summarizer(Evaluator):
         t = as_bool(self.k(n.test, st))
         if t[0] == 'const':
             return self.block(n.body if t[1] else n.orelse, st)
+        if t[0] == 'or' and len(t[1]) <= 3:
+            nones = [x for x in t[1] if x[0] == 'cmp' and x[1] == 'is'
+                     and x[3] == ('const', None)]
+            if len(nones) == 1:
+                # `x is None or B`: the two ways into the body are two
+                # paths (on the first, x is None is a fact of the path)
+                N = nones[0]
+                rest = tuple(x for x in t[1] if x != N)
+                R = rest[0] if len(rest) == 1 else ('or', rest)
+                a1 = st.copy()
+                a1.trace.append(('cond', N, True, n.lineno))
+                a2 = st.copy()
+                a2.trace.append(('cond', N, False, n.lineno))
+                a2.trace.append(('cond', R, True, n.lineno))
+                b = st
+                b.trace.append(('cond', t, False, n.lineno))
+                return self.block(n.body, a1) + self.block(n.body, a2) \
+                    + self.block(n.orelse, b)
         a = st.copy()
         a.trace.append(('cond', t, True, n.lineno))
         b = st
@@ -2897,6 +3140,10 @@ class Summarizer(Evaluator):
             v = body_st.env.get(name)
             if v is None or name in ('self', 'cls'):
                 continue
+            if name in getattr(self, '_loop_bound', ()):
+                # bound afresh by the loop header at every iteration: what
+                # the body assigns to it does not reach the next one
+                continue
             if isinstance(v, tuple) and v and v[0] in (
                     'import', 'importfrom', 'localfunc', 'bv'):
                 continue
@@ -2947,6 +3194,16 @@ class Summarizer(Evaluator):
             pk = key(post)
             if pk == sk:
                 continue
+            if prek[0] == 'const' and isinstance(prek[1], str) \
+                    and pk[0] == 'poly':
+                # text += piece, written where the engine could not yet
+                # know the accumulator is a text
+                delta = to_poly(post) - to_poly(start)
+                dk = delta.key()
+                if dk[0] != 'poly' and not mentions_any(dk, [sk]):
+                    changing.append((s, dk))
+                    continue
+                return None
             parts = []
             x = pk
             while x[0] == 'strcat':         # left-associated chain
@@ -2962,6 +3219,11 @@ class Summarizer(Evaluator):
                 changing.append((s, piece))
             else:
                 return None
+        if len(changing) == len(fall_states) and len(changing) > 1 \
+                and len(set(p_ for s_, p_ in changing)) == 1:
+            # every way through the body adds the same piece
+            changing = changing[:1]
+            fall_states = changing
         if len(changing) != 1:
             return None
         s, piece = changing[0]
@@ -3331,7 +3593,46 @@ class Summarizer(Evaluator):
             results.append((ft, None))
         return results
 
+    def _search_then_act(self, n):
+        """`for x in it: if c: <act>; break` where <act> does not use x and x
+        is not read after the loop  ==  `if any(c for x in it): <act>`."""
+        if n.orelse or len(n.body) != 1 or not isinstance(n.body[0], ast.If):
+            return None
+        iff = n.body[0]
+        if iff.orelse or len(iff.body) < 2 or not isinstance(
+                iff.body[-1], ast.Break):
+            return None
+        act = iff.body[:-1]
+        if not all(isinstance(a, (ast.Expr, ast.Assign, ast.AugAssign,
+                                  ast.Delete)) for a in act):
+            return None
+        targets = set(x.id for x in ast.walk(n.target)
+                      if isinstance(x, ast.Name))
+        for a in act:
+            if any(isinstance(x, ast.Name) and x.id in targets
+                   for x in ast.walk(a)):
+                return None
+        fn = getattr(self, 'func_node', None)
+        if fn is None:
+            return None
+        inside = set(id(x) for x in ast.walk(n))
+        for x in ast.walk(fn):
+            if isinstance(x, ast.Name) and x.id in targets \
+                    and id(x) not in inside:
+                return None
+        gen = ast.GeneratorExp(elt=iff.test, generators=[ast.comprehension(
+            target=n.target, iter=n.iter, ifs=[], is_async=0)])
+        fake = ast.If(test=ast.Call(func=ast.Name(id='any', ctx=ast.Load()),
+                                    args=[gen], keywords=[]),
+                      body=act, orelse=[])
+        ast.copy_location(fake, n)
+        ast.fix_missing_locations(fake)
+        return fake
+
     def st_For(self, n, st):
+        fake = self._search_then_act(n)
+        if fake is not None:
+            return self.stmt(fake, st)
         elts = self._enumerable(n.iter, st) if isinstance(
             n.iter, (ast.Tuple, ast.List, ast.Constant)) else None
         if elts is None and isinstance(n.iter, ast.Call):
